@@ -24,6 +24,7 @@ mod reuse;
 mod rng;
 mod runner;
 mod script;
+mod selftest;
 mod sum;
 mod zlibffi;
 
@@ -192,6 +193,10 @@ fn main() {
                     std::process::exit(2);
                 }
             }
+        }
+        "selftest" => {
+            let n: u64 = args.get(2).and_then(|x| x.parse().ok()).unwrap_or(100_000);
+            std::process::exit(selftest::run(n));
         }
         "gen" => {
             // print the script of run i (debugging aid)
